@@ -136,11 +136,103 @@ fn law(magic: u32, arch: u32, len: u32) -> Result<(), String> {
     let isa = if arch == 0 { HeaderTagISA::I386 } else { HeaderTagISA::MIPS32 };
     let c = Multiboot2Header::calc_checksum(magic, isa, len);
     let s = magic.wrapping_add(arch).wrapping_add(len).wrapping_add(c);
-    if s == 0 && c == model_checksum(magic, arch, len) {
+    if !(s == 0 && c == model_checksum(magic, arch, len)) {
+        return Err(format!("calc_checksum({magic:#x}, arch {arch}, {len}) = {c:#x}: magic+arch+length+checksum = {s:#x} (mod 2^32), must be 0"));
+    }
+    // the same congruence decides verification: a 16-byte basic header carrying
+    // that checksum verifies, one that is off by one does not
+    let mut words = [0u64; 2];
+    for (delta, want) in [(0u32, true), (1, false), (u32::MAX, false)] {
+        let b = unsafe { core::slice::from_raw_parts_mut(words.as_mut_ptr() as *mut u8, 16) };
+        put32(b, 0, magic);
+        put32(b, 4, arch);
+        put32(b, 8, len);
+        put32(b, 12, c.wrapping_add(delta));
+        let h = unsafe { &*(words.as_ptr() as *const multiboot2_header::Multiboot2BasicHeader) };
+        if h.verify_checksum() != want || h.length() != len || h.header_magic() != magic || h.checksum() != c.wrapping_add(delta) {
+            return Err(format!("header (magic {magic:#x}, arch {arch}, length {len}, checksum {:#x}): verify_checksum() = {}, the congruence says {want}", c.wrapping_add(delta), h.verify_checksum()));
+        }
+    }
+    Ok(())
+}
+
+// --- load() with lengths far beyond what a guarded mapping can hold ----------------
+
+#[derive(Clone, Debug, Serialize, Deserialize)]
+pub struct HugeCase {
+    pub arch: u32,
+    pub len: u32,
+    pub sum_delta: u32,
+}
+
+/// A lazily zero-filled 1 GiB mapping (never touched beyond its first page).
+fn huge_mapping() -> *mut u8 {
+    use std::sync::OnceLock;
+    static P: OnceLock<usize> = OnceLock::new();
+    *P.get_or_init(|| unsafe {
+        let p = libc::mmap(std::ptr::null_mut(), (1usize << 30) + 4096, libc::PROT_READ | libc::PROT_WRITE, libc::MAP_PRIVATE | libc::MAP_ANONYMOUS | libc::MAP_NORESERVE, -1, 0);
+        assert!(p != libc::MAP_FAILED, "cannot reserve 1 GiB of address space");
+        p as usize
+    }) as *mut u8
+}
+
+fn eval_huge(c: &HugeCase, obs: &mut Obs) -> Result<(), String> {
+    if c.len as usize > 1 << 30 || (c.arch != 0 && c.arch != 4) {
+        return Err("malformed case".into());
+    }
+    let p = huge_mapping();
+    let hdr = unsafe { core::slice::from_raw_parts_mut(p, 16) };
+    put32(hdr, 0, HDR_MAGIC);
+    put32(hdr, 4, c.arch);
+    put32(hdr, 8, c.len);
+    put32(hdr, 12, model_checksum(HDR_MAGIC, c.arch, c.len).wrapping_add(c.sum_delta));
+    let want = predict_hdr_load(hdr);
+    obs.class(format!("expect:{}", want.text()));
+    obs.nontrivial(fnv(hdr));
+    obs.sample(json!({"arch": c.arch, "length": c.len, "checksum_delta": c.sum_delta, "expected": want.text()}));
+    let t = match mb2_sandbox::run_child(|| load_transcript(p).render().into_bytes()) {
+        mb2_sandbox::ChildResult::Done(b) => Transcript::parse(&String::from_utf8_lossy(&b)).unwrap_or_default(),
+        mb2_sandbox::ChildResult::Signal(s) => return Err(format!("load of a header declaring {} bytes crashed (signal {s})", c.len)),
+        _ => {
+            obs.inconclusive("child did not report");
+            return Ok(());
+        }
+    };
+    let ok = match (want, t.get("load")) {
+        (HdrLoad::Ok, Some(Val::Txt(s))) if s == "Ok" => t.get("h.verify") == Some(&Val::B(true)),
+        (w, Some(Val::Err(e))) => e == w.text(),
+        _ => false,
+    };
+    if ok {
         Ok(())
     } else {
-        Err(format!("calc_checksum({magic:#x}, arch {arch}, {len}) = {c:#x}: magic+arch+length+checksum = {s:#x} (mod 2^32), must be 0"))
+        Err(format!("arch {} length {:#x} checksum delta {}: expected {}, got {}", c.arch, c.len, c.sum_delta, want.text(), t.render().replace('\n', " ")))
     }
+}
+
+fn enumerate_huge(_: &Ctx) -> Box<dyn Iterator<Item = HugeCase>> {
+    let mut v = Vec::new();
+    // around the length at which magic + arch + length first exceeds 2^32
+    let wrap = 0u32.wrapping_sub(HDR_MAGIC);
+    for base in [wrap - 64, wrap - 8, wrap, wrap + 8, 0x2000_0000, 0x3000_0008, 0x3FFF_FFF8, 0x4000_0000, 0x0100_0000] {
+        for d in [0u32, 1, 4, 8] {
+            for arch in [0u32, 4] {
+                for sum_delta in [0u32, 1] {
+                    let len = base.wrapping_add(d);
+                    if len as usize <= 1 << 30 {
+                        v.push(HugeCase { arch, len, sum_delta });
+                    }
+                }
+            }
+        }
+    }
+    Box::new(v.into_iter())
+}
+
+fn strategy_huge(_: &Ctx) -> BoxedStrategy<HugeCase> {
+    (prop_oneof![Just(0u32), Just(4u32)], (0x0010_0000u32..=0x0800_0000).prop_map(|k| 8 * k), prop_oneof![4 => Just(0u32), 1 => any::<u32>()])
+        .prop_map(|(arch, len, sum_delta)| HugeCase { arch, len, sum_delta })
+        .boxed()
 }
 
 const LAW_MAGICS: [u32; 4] = [HDR_MAGIC, 0, 0xFFFF_FFFF, 0x1BAD_B002];
@@ -228,10 +320,21 @@ pub fn subs() -> Vec<Box<dyn Sub>> {
             enum_exhaustive: false,
             eval,
         }),
+        Box::new(PropSub::<HugeCase> {
+            name: "load-huge",
+            rule: "Multiboot2Header::load for headers that declare 8 MiB .. 1 GiB (lazily mapped, only the header page is ever touched), both architectures, valid / off-by-one / random checksum: enumerated around the length at which magic+arch+length exceeds 2^32 (0x17adaf2a) and at 2^24, 2^29, 2^30; generated: multiples of 8 in between. Oracle: the statement's decision table. Every case is non-trivial; distinct by the header words",
+            profiles: Profiles::Both,
+            quick: 400,
+            thorough: 20000,
+            strategy: strategy_huge,
+            enumerate: Some(enumerate_huge),
+            enum_exhaustive: false,
+            eval: eval_huge,
+        }),
         Box::new(LoopSub {
             name: "checksum-law",
             profiles: Profiles::Both,
-            rule: "calc_checksum(m, arch, len) + m + arch + len == 0 (mod 2^32) and equals the model's checksum, for both architectures and 4 magics. Thorough/release: every length < 2^32 (exhaustive); otherwise every length < 2^16, every 2^k +- 0..=16, 2^32-1-d, the wrap-around lengths, 2^16 seeded samples. Distinct by length",
+            rule: "calc_checksum(m, arch, len) + m + arch + len == 0 (mod 2^32) and equals the model's checksum, and a 16-byte basic header with that checksum verifies while checksum +-1 does not, for both architectures and 4 magics. Thorough/release: every length < 2^32 (exhaustive); otherwise every length < 2^16, every 2^k +- 0..=16, 2^32-1-d, the wrap-around lengths, 2^16 seeded samples. Distinct by length",
             run: run_law,
             replay: replay_law,
         }),
